@@ -103,7 +103,9 @@ check("C15", "other",
       "Partial (executor level): whole-function symbolic execution of StatefulExecutor::execute_all: it returns Err(Skipped(i)) "
       "exactly for the first test whose status is Skipped or whose exit code equals its effective skip code (test config, else "
       "document defaults, else 80), for all exit codes and skip codes, documents of <= 2/3 tests. That the CLI then reports every "
-      "test of the document as skipped and the Cram executor's twin logic are not claimed.",
+      "test of the document as skipped is C20's claim. Single-script (Cram / --cram-compat) executor: whole BashScriptExecutor::execute_all with the "
+      "script run replaced by its divider output — Err(Skipped) ⇔ a test case that ran exits with the test cases' skip code (else 80), also when the "
+      "document's defaults name another code and when a test case ends the script (1..2/3 test cases, codes {0, 7, 80}).",
       E2_NOTE + " Environment stubs as listed in the evidence.", E2_TECH, "E2", "DESIGN.md §3 C15")
 
 check("C11", "other",
